@@ -59,6 +59,11 @@ def model_conf(d, rnd, layout):
                     lines.append(rnd.choice(["", "  ", "\t", "      "]) + ptxt)
         else:
             lines.append("%s%s%s=%s%s%s" % (ind, k, sp1, sp2, v, rnd.choice(["", " ", "  # trailing comment"]) if k[0] in "rp" and False else ""))
+            # a dangling continuation mark after a complete value, ended by a blank or comment line: the next
+            # definition must not be glued to this one
+            if rnd.random() < 0.12:
+                lines[-1] += rnd.choice([" \\", "\\", "  \\ "])
+                lines.append(rnd.choice(["", "# note", "   ", "; note"]))
 
     def header(n):
         if layout:
